@@ -19,6 +19,14 @@ Driver/C02 — runs the parser front ends of Model/ParseGuards on the harness' r
         of decrypt_chunk_with_keys decides err before the cipher runs); encchunk: one encrypted
         chunk payload through `Blte.encFront`;
         big = a front-end allocation exceeds c·len+k or a capped one exceeds MAX_DECOMPRESSION_SIZE.
+        Complete models of Model/ParseBodies: pindex / phdr / pblock2 / pblock8 / pentry (patch index:
+        header, block walk, block 2, block 8, entry parser — ok | err | panic predicted).
+        Parsers with a result detail answer `<class> big=<b> d=<detail>` for class ok | err:
+        zbsmem / zbsstream / zbsstream1k / zbsobj (input: u16le-counted old file, inflated control /
+        diff / extra blocks, u32le output size; Model/ParseBodies.Zbs.applyBytes over C16's control-block codec; detail = `<len>:<FNV-1a
+        64 of the output>` or `-`) and lrutouch / lruremove / lruevict / lrumix (load_from_disk, then a
+        script of list operations on the table's own keys on C17's Model/LruPtr; detail =
+        `<result>:<first key byte of every walked entry>` per step joined by `/`, `-` = refused load).
   lhdr <hex>   LocalHeader::from_bytes + blte_size                       → none | blte=<n>
   espec <edits>   ESpec::parse on the (all-ASCII) input made by the edits from the empty input:
       → `ok depth=<n>` (n = deepest `parse_espec` frame = depth of the parsed tree)
@@ -27,6 +35,7 @@ Driver/C02 — runs the parser front ends of Model/ParseGuards on the harness' r
 import Driver.Common
 import Cascette.Model.ParseGuards
 import Cascette.Model.ParseFronts
+import Cascette.Model.ParseBodies
 import Cascette.Model.Bpsv
 import Cascette.Model.Integrity
 import Cascette.Spec.Md5
@@ -103,7 +112,8 @@ def editsOk (es : String) : Bool := es == "-" || (es.splitOn ",").all editOk
 def modelled (parser : String) : Bool :=
   ["blte", "encchunk", "encoding", "install", "download", "size", "pindex", "zbsdiff", "zbsparse", "shmem", "idx",
    "aidx", "agroup", "aidxc", "root", "tvfs", "parchive", "lru", "espec", "bpsv", "buildinfo", "updsec", "residency",
-   "localhdr", "lruload", "lruuse", "enchdr"].contains parser
+   "localhdr", "lruload", "lruuse", "enchdr", "phdr", "pblock2", "pblock8", "pentry", "zbsmem", "zbsstream",
+   "zbsstream1k", "zbsobj", "lrutouch", "lruremove", "lruevict", "lrumix"].contains parser
 
 def md5H : Model.Integrity.Hash := Spec.Md5.md5
 
@@ -116,6 +126,58 @@ def shmemFront (b : Bytes) : Front :=
     else if 5 ≤ v ∧ 0x258 ≤ b.length then Local.shmemPidFront (b.drop 0x154)
     else { verdict := .pass }
 
+open Cascette.Model.ParseBodies in
+def resFront (r : Res × List Nat) (pre : List Nat := []) : Front :=
+  { verdict := match r.1 with | .panic => .panic | .err => .err | .ok => .pass, allocs := pre ++ r.2 }
+
+/-! ### structured ZBSDIFF apply -/
+def fnv1a (b : Bytes) : UInt64 :=
+  b.foldl (fun h x => (h ^^^ x.toNat.toUInt64) * 1099511628211) 14695981039346656037
+
+def takePart (d : Bytes) : Option (Bytes × Bytes) :=
+  match d with
+  | a :: b :: r =>
+    let n := a.toNat + 256 * b.toNat
+    if (r.take n).length < n then none else some (r.take n, r.drop n)
+  | _ => none
+
+/-- (ok?, detail) of a `zbs*` parser on the composite input. -/
+def zbsExact (_parser : String) (d : Bytes) : Bool × String :=
+  let split : Option (Bytes × Bytes × Bytes × Bytes × Nat) := do
+    let (old, r) ← takePart d
+    let (ctl, r) ← takePart r
+    let (diff, r) ← takePart r
+    let (extra, r) ← takePart r
+    match r with
+    | [a, b, c, e] => some (old, ctl, diff, extra, a.toNat + 256 * b.toNat + 65536 * c.toNat + 16777216 * e.toNat)
+    | _ => none
+  match split with
+  | none => (false, "bad")
+  | some (old, ctl, diff, extra, out) =>
+    -- one model for the memory patcher, the parsed-object API and the streaming patcher (both buffers)
+    match Model.ParseBodies.Zbs.applyBytes old ctl diff extra out with
+    | some o => (true, s!"{o.length}:{hexFixed 16 (fnv1a o).toNat}")
+    | none => (false, "-")
+
+/-! ### LRU list operations behind an accepted load -/
+open Cascette.Model.ParseBodies.LruOps in
+def lruOpsExact (parser : String) (d : Bytes) : Option (Bool × String) :=
+  if !Model.ParseFronts.Lru.loadOk md5H d then some (false, "-")
+  else
+    match Model.LruPtr.deserialize md5H d with
+    | none => some (false, "-")
+    | some (h, es) =>
+      let s := ptrOf h es
+      let first (w : List Model.LruPtr.Key) : String :=
+        if w.isEmpty then "-" else String.join (w.map (fun k => hexFixed 2 (k.headD 0).toNat))
+      match Model.LruPtr.iter s, runScript s (script parser (tableKeys es [])) with
+      | some w0, some steps =>
+        some (true, "/".intercalate (s!"l:{first w0}" :: steps.map (fun (r, w) => s!"{r}:{first w}")))
+      | _, _ => none   -- an index panic or a walk that does not end: no ok | err to predict
+
+def isZbsApply (p : String) : Bool := ["zbsmem", "zbsstream", "zbsstream1k", "zbsobj"].contains p
+def isLruOps (p : String) : Bool := ["lrutouch", "lruremove", "lruevict", "lrumix"].contains p
+
 /-- front end of a parser, `none` when the parser has no front-end model (oracle-only). -/
 def frontOf (s : St) (parser : String) (d : Bytes) : Option Front :=
   match parser with
@@ -125,7 +187,12 @@ def frontOf (s : St) (parser : String) (d : Bytes) : Option Front :=
   | "install" => some (Manifest.installFront (s.size "in_tag") (s.size "in_entry") d)
   | "download" => some (Manifest.downloadFront (s.size "dl_entry") (s.size "dl_tag") d)
   | "size" => some (Manifest.sizeFront (s.size "in_tag") (s.size "sz_entry") d)
-  | "pindex" => some (PIndex.front d)
+  | "pindex" => some (resFront (Model.ParseBodies.PIdx.parse (s.size "pi_entry") d) (PIndex.front d).allocs)
+  | "phdr" =>
+    some { verdict := if (Model.ParseBodies.PIdx.header d).isSome then .pass else .err, allocs := (PIndex.front d).allocs }
+  | "pblock2" => some (resFront (Model.ParseBodies.PIdx.block2 (s.size "pi_entry") d))
+  | "pblock8" => some (resFront (Model.ParseBodies.PIdx.block8 (s.size "pi_entry") d))
+  | "pentry" => some (resFront (Model.ParseBodies.PIdx.entryBytes d, []))
   | "zbsdiff" => some (Zbs.front d)
   | "zbsparse" => some (Zbs.front d)
   | "shmem" => some (shmemFront d)
@@ -154,6 +221,7 @@ def exactOf (parser : String) (d : Bytes) : Option Bool :=
   | "bpsv" | "buildinfo" =>
     if isAscii d then some (match Model.Bpsv.parse (asChars d) with | .ok _ => true | .error _ => false) else none
   | "lru" => some (Model.Integrity.Lru.deserialize md5H d).isSome
+  | "pindex" | "phdr" | "pblock2" | "pblock8" | "pentry" => some true   -- complete: `pass` of the model is Ok
   | "lruload" => some (Model.ParseFronts.Lru.loadOk md5H d)
   -- the list operations behind an accepted load are a body (oracle-only); a refused load is predicted
   | "lruuse" => if Model.ParseFronts.Lru.loadOk md5H d then none else some false
@@ -182,6 +250,14 @@ def step (s : St) (t : List String) : St × String :=
       match applyEdits seed es with
       | none => (s, "bad-op")
       | some d =>
+        if isZbsApply parser then
+          let (okk, det) := zbsExact parser d
+          (s, s!"{if okk then "ok" else "err"} big=0 d={det}")
+        else if isLruOps parser then
+          match lruOpsExact parser d with
+          | some (okk, det) => (s, s!"{if okk then "ok" else "err"} big=0 d={det}")
+          | none => (s, "stuck big=0")
+        else
         match frontOf s parser d, exactOf parser d with
         | none, none => (s, s!"{o} big=0")          -- oracle-only parser: nothing predicted
         | fo, ex =>
